@@ -9,38 +9,72 @@ From Coq Require Import List Lia Bool ZArith.
 Import ListNotations.
 Local Open Scope nat_scope.
 
-(* closed types of non-generic environments: no parameters, references without arguments, map keys
-   that serde_json can write *)
+Section Defs.
+Variable R : env.
+
 Definition key_leaf (t : rty) : bool :=
   match t with RLeaf LString | RLeaf LChar | RLeaf (LInt _ _ _) => true | _ => false end.
 
-Fixpoint mono_ty (t : rty) : bool :=
+(* types of a definition with n type parameters: parameters below n, references to known definitions at their
+   arity, map keys that serde_json can write, no dummies *)
+Fixpoint pmono (n : nat) (t : rty) : bool :=
   match t with
   | RLeaf _ => true
-  | ROption u | RVec u | RArray _ u | RWrap u | RRange u => mono_ty u
-  | RTuple ts => forallb mono_ty ts
-  | RMap k v => key_leaf k && mono_ty v
-  | RResult a b => mono_ty a && mono_ty b
-  | RNamed _ args => match args with [] => true | _ => false end
-  | RParam _ | RDummy _ => false
+  | ROption u | RVec u | RArray _ u | RWrap u | RRange u => pmono n u
+  | RTuple ts => forallb (pmono n) ts
+  | RMap k v => key_leaf k && pmono n v
+  | RResult a b => pmono n a && pmono n b
+  | RNamed id args =>
+      match lookup R id with
+      | Some d => Nat.eqb (length args) (length (c_params (attrs_of d))) && forallb (pmono n) args
+      | None => false
+      end
+  | RParam i => Nat.ltb i n
+  | RDummy _ => false
   end.
 
-Lemma mono_src : forall t, mono_ty t = true -> src_ty 0 t = true.
+(* closed types *)
+Definition mono_ty (t : rty) : bool := pmono 0 t.
+
+Lemma pmono_src n : forall t, pmono n t = true -> src_ty n t = true.
 Proof.
-  induction t as [l|t IH|t IH|n t IH|ts IH|k v IHk IHv|t IH|t e IHt IHe|t IH|id args IH|i|n] using rty_ind';
-    cbn [mono_ty src_ty]; intros H; auto; try discriminate.
+  induction t as [l|t IH|t IH|m t IH|ts IH|k v IHk IHv|t IH|t e IHt IHe|t IH|id args IH|i|m] using rty_ind';
+    cbn [pmono src_ty]; intros H; auto; try discriminate.
   - rewrite forallb_forall in *. rewrite Forall_forall in IH. intros x Hx. auto.
   - apply andb_true_iff in H as [H1 H2]. rewrite (IHv H2). destruct k; try discriminate. reflexivity.
   - apply andb_true_iff in H as [H1 H2]. rewrite (IHt H1), (IHe H2). reflexivity.
-  - destruct args; [reflexivity | discriminate].
+  - destruct (lookup R id); [|discriminate]. apply andb_true_iff in H as [_ H].
+    rewrite forallb_forall in *. rewrite Forall_forall in IH. intros x Hx. auto.
 Qed.
 
-(* a field with rename, skip and inline only *)
-Definition plain_field (f : field) : Prop :=
+Lemma mono_src t : mono_ty t = true -> src_ty 0 t = true.
+Proof. apply pmono_src. Qed.
+
+Lemma key_leaf_subst args k : key_leaf k = true -> rsubst args k = k.
+Proof. destruct k as [l| | | | | | | | | | |]; try discriminate. reflexivity. Qed.
+
+(* instantiating the parameters of such a type at closed types gives a closed type *)
+Lemma pmono_subst n args : Forall (fun a => mono_ty a = true) args -> length args = n ->
+  forall t, pmono n t = true -> mono_ty (rsubst args t) = true.
+Proof.
+  intros Hargs Hlen. unfold mono_ty.
+  induction t as [l|t IH|t IH|m t IH|ts IH|k v IHk IHv|t IH|t e IHt IHe|t IH|id targs IH|i|m] using rty_ind';
+    cbn [pmono rsubst]; intros H; auto; try discriminate.
+  - rewrite forallb_forall in *. rewrite Forall_forall in IH. intros x Hx. apply in_map_iff in Hx as (y & <- & Hy). auto.
+  - apply andb_true_iff in H as [H1 H2]. rewrite (key_leaf_subst _ _ H1), H1. cbn [andb]. auto.
+  - apply andb_true_iff in H as [H1 H2]. rewrite (IHt H1), (IHe H2). reflexivity.
+  - destruct (lookup R id); [|discriminate]. apply andb_true_iff in H as [Hl H]. rewrite map_length, Hl. cbn [andb].
+    rewrite forallb_forall in *. rewrite Forall_forall in IH. intros x Hx. apply in_map_iff in Hx as (y & <- & Hy). auto.
+  - apply Nat.ltb_lt in H. rewrite Forall_forall in Hargs. apply Hargs. apply nth_In. lia.
+Qed.
+
+(* a field with rename, skip and inline only; inline only in definitions without type parameters *)
+Definition plain_field (n : nat) (f : field) : Prop :=
   f_flatten f = false /\ f_optional f = NotOptional /\ f_type f = None /\
-  f_skip_none f = false /\ f_serde_ty f = f_ty f /\ mono_ty (f_ty f) = true.
+  f_skip_none f = false /\ f_serde_ty f = f_ty f /\ pmono n (f_ty f) = true /\ (f_inline f = true -> n = 0%nat).
 
 Lemma rsubst_nil : forall t, src_ty 0 t = true -> rsubst [] t = t.
+
 Proof.
   induction t as [l|t IH|t IH|n t IH|ts IH|k v IHk IHv|t IH|t e IHt IHe|t IH|id args IH|i|n] using rty_ind';
     cbn [src_ty rsubst]; intros H.
@@ -58,23 +92,55 @@ Proof.
   - discriminate.
 Qed.
 
+End Defs.
+
 Section Layer.
 Variable is_upper is_alnum is_numeric : char -> bool.
 Variable R : env.
 Variable E : denv.
 Variable st : rty -> value -> option json.
 Variable inl flt : rty -> outcome tsty.
+(* the definition has n parameters; serde sees it at `sargs`, the generator at `gargs` (the arguments
+   themselves for inline(), the dummies for decl()), and the generated type is read under the
+   substitution (sn, sf) of what stands for the parameters *)
+Variable n : nat.
+Variable sargs gargs : list rty.
+Variable sn sf : str -> option tsty.
 
-Notation ev := (ev_mem E).
+Definition evs (t : tsty) (j : json) : Prop := ev_mem E (tsubst sn sf t) j.
+Notation ev := evs.
+Notation plain_field := (plain_field R n).
 
-(* what is known of the field types: their serialisations inhabit their names *)
-Hypothesis Hst : forall t v j a, mono_ty t = true -> st t v = Some j -> name_of R t = Ok a -> ev a j.
-Hypothesis Hinl : forall t v j a, mono_ty t = true -> st t v = Some j -> inl t = Ok a -> ev a j.
+Lemma evs_prim p j : prim_member p j = true -> ev (TPrim p) j.
+Proof. apply ev_prim. Qed.
+Lemma evs_lit s : ev (TLit s) (JStr s).
+Proof. apply ev_lit. Qed.
+Lemma evs_merged t j : ev t j -> ev (TMerged t) j.
+Proof. unfold evs. cbn [tsubst]. apply ev_merged. Qed.
+Lemma evs_union ts t j : In t ts -> ev t j -> ev (TUnion ts) j.
+Proof. unfold evs. cbn [tsubst]. intros Hin H. eapply ev_union; [apply in_map; exact Hin | exact H]. Qed.
+Lemma evs_tuple ts l : Forall2 ev ts l -> ev (TTuple ts) (JArr l).
+Proof.
+  unfold evs. cbn [tsubst]. intros H. apply ev_tuple. induction H as [|x y xs ys Hxy _ IH]; cbn [map]; constructor; assumption.
+Qed.
+Lemma evs_obj st0 (props : list (phead * tsty)) (entries : list (str * json)) :
+  NoDup (map (fun p => p_key (fst p)) props) ->
+  (forall k j, In (k, j) entries -> exists p t, In (p, t) props /\ p_key p = k /\ ev t j) ->
+  (forall p t, In (p, t) props -> p_optional p = false -> exists j, In (p_key p, j) entries) ->
+  ev (TObj st0 props) (JObj entries).
+Proof.
+  intros Hnd Hent Hreq. unfold evs. cbn [tsubst]. apply ev_obj.
+  - rewrite map_map. cbn [fst]. exact Hnd.
+  - intros k j Hin. destruct (Hent k j Hin) as (p & t & Hp & Hk & Hm). exists p, (tsubst sn sf t). split; [|split; assumption].
+    apply in_map_iff. exists (p, t). split; [reflexivity | exact Hp].
+  - intros p t Hin Ho. apply in_map_iff in Hin as ([p0 t0] & Heq & Hin0). inversion Heq; subst. eapply Hreq; eassumption.
+Qed.
 
 (* the type text of a field: inline() or name() *)
-Definition fty (f : field) : outcome tsty := if f_inline f then inl (f_ty f) else name_of R (f_ty f).
-Lemma Hfld f v j a : mono_ty (f_ty f) = true -> st (f_ty f) v = Some j -> fty f = Ok a -> ev a j.
-Proof. unfold fty. destruct (f_inline f); intros Hm Hs Ha; [eapply Hinl | eapply Hst]; eassumption. Qed.
+Definition fty (f : field) : outcome tsty :=
+  if f_inline f then inl (rsubst gargs (f_ty f)) else name_of R (rsubst gargs (f_ty f)).
+(* what is known of the field types: what serde writes for them inhabits their text *)
+Hypothesis Hfld : forall f v j a, plain_field f -> st (rsubst sargs (f_ty f)) v = Some j -> fty f = Ok a -> ev a j.
 
 Lemma is_flat_plain f : plain_field f -> is_flat f = false.
 Proof. intros (Hf & _). unfold is_flat. rewrite Hf. reflexivity. Qed.
@@ -87,8 +153,8 @@ Qed.
 (* the entries of a named-field list against its generated properties *)
 Lemma named_fields_rel ra : forall fs vs entries props,
   Forall plain_field fs ->
-  named_entries st [] ra fs vs = Some entries ->
-  omap_list (prop_of is_alnum is_numeric R inl [] ra NotOptional) (live fs) = Ok props ->
+  named_entries st sargs ra fs vs = Some entries ->
+  omap_list (prop_of is_alnum is_numeric R inl gargs ra NotOptional) (live fs) = Ok props ->
   (forall k j, In (k, j) entries -> exists p t, In (p, t) props /\ p_key p = k /\ ev t j) /\
   (forall p t, In (p, t) props -> p_optional p = false /\ exists j, In (p_key p, j) entries) /\
   map (fun p => p_key (fst p)) props = map (Gen.field_key ra) (live fs).
@@ -96,23 +162,23 @@ Proof.
   induction fs as [|f fs IH]; intros vs entries props Hpl He Hp.
   - destruct vs; [|discriminate]. cbn in He, Hp. inversion He; inversion Hp; subst. repeat split; intros; try contradiction; reflexivity.
   - inversion Hpl as [|? ? Hf Hfs]; subst. destruct vs as [|v vs]; [discriminate|]. cbn [named_entries] in He.
-    destruct (named_entries st [] ra fs vs) as [rest|] eqn:Hrest; [|discriminate].
-    destruct Hf as (Hfl & Hopt & Hty & Hsn & Hsty & Hmono). pose proof (mono_src _ Hmono) as Hsrc.
+    destruct (named_entries st sargs ra fs vs) as [rest|] eqn:Hrest; [|discriminate].
+    pose proof Hf as Hf0. destruct Hf as (Hfl & Hopt & Hty & Hsn & Hsty & Hmono & Hinl0).
     unfold live in *. cbn [filter] in Hp |- *. destruct (f_skip f) eqn:Hskip; cbn [negb] in Hp |- *.
     + inversion He; subst. eapply IH; eassumption.
-    + rewrite Hsn in He. cbn [andb] in He. rewrite Hsty, (rsubst_nil _ Hsrc), Hfl in He.
-      destruct (st (f_ty f) v) as [j|] eqn:Hj; [|discriminate]. inversion He; subst; clear He.
+    + rewrite Hsn in He. cbn [andb] in He. rewrite Hsty, Hfl in He.
+      destruct (st (rsubst sargs (f_ty f)) v) as [j|] eqn:Hj; [|discriminate]. inversion He; subst; clear He.
       cbn [omap_list] in Hp. unfold prop_of at 1 in Hp. rewrite Hty in Hp.
-      unfold field_ty, field_optional in Hp. rewrite Hopt in Hp. cbn [fst snd] in Hp. rewrite (rsubst_nil _ Hsrc) in Hp.
-      change (if f_inline f then inl (f_ty f) else name_of R (f_ty f)) with (fty f) in Hp.
+      unfold field_ty, field_optional in Hp. rewrite Hopt in Hp. cbn [fst snd] in Hp.
+      change (if f_inline f then inl (rsubst gargs (f_ty f)) else name_of R (rsubst gargs (f_ty f))) with (fty f) in Hp.
       destruct (fty f) as [a|?|?] eqn:Ha; cbn [bind] in Hp; try discriminate.
-      destruct (omap_list (prop_of is_alnum is_numeric R inl [] ra NotOptional) (filter (fun fl => negb (f_skip fl)) fs)) as [ps|?|?] eqn:Hps; try discriminate.
+      destruct (omap_list (prop_of is_alnum is_numeric R inl gargs ra NotOptional) (filter (fun fl => negb (f_skip fl)) fs)) as [ps|?|?] eqn:Hps; try discriminate.
       inversion Hp; subst; clear Hp.
       destruct (IH vs rest ps Hfs Hrest eq_refl) as (A & B & C).
       repeat split.
       * intros k j' [Heq|Hin'].
         -- inversion Heq; subst. eexists; eexists. split; [left; reflexivity|]. split; [reflexivity|].
-           eapply Hfld; [exact Hmono | eassumption | exact Ha].
+           eapply Hfld; [exact Hf0 | eassumption | exact Ha].
         -- destruct (A k j' Hin') as (p & t & Hp' & Hk & Hm). exists p, t. split; [right; exact Hp'|]. split; assumption.
       * destruct H as [Heq|Hin']; [inversion Heq; reflexivity | apply (B p t Hin')].
       * destruct H as [Heq|Hin'].
@@ -124,25 +190,25 @@ Qed.
 (* tuple items against the generated element types *)
 Lemma tuple_items_rel : forall fs vs items tys,
   Forall plain_field fs ->
-  tuple_items st [] fs vs = Some items ->
-  omap_list (value_ty R inl []) (live fs) = Ok tys ->
+  tuple_items st sargs fs vs = Some items ->
+  omap_list (value_ty R inl gargs) (live fs) = Ok tys ->
   Forall2 ev tys items.
 Proof.
   unfold tuple_items.
   induction fs as [|f fs IH]; intros vs items tys Hpl He Hp.
   - destruct vs; [|discriminate]. cbn in He, Hp. inversion He; inversion Hp; subst. constructor.
   - inversion Hpl as [|? ? Hf Hfs]; subst. destruct vs as [|v vs]; [discriminate|]. cbn [opt_map2] in He.
-    destruct Hf as (Hfl & Hopt & Hty & Hsn & Hsty & Hmono). pose proof (mono_src _ Hmono) as Hsrc.
+    pose proof Hf as Hf0. destruct Hf as (Hfl & Hopt & Hty & Hsn & Hsty & Hmono & Hinl0).
     unfold live in *. cbn [filter] in Hp. destruct (f_skip f) eqn:Hskip; cbn [negb] in Hp.
     + destruct (opt_map2 _ fs vs) as [rest|] eqn:Hrest; [|discriminate]. cbn in He. inversion He; subst.
       eapply IH; [exact Hfs| |exact Hp]. rewrite Hrest. reflexivity.
-    + rewrite Hsty, (rsubst_nil _ Hsrc) in He. destruct (st (f_ty f) v) as [j|] eqn:Hj; [|discriminate]. cbn [option_map] in He.
+    + rewrite Hsty in He. destruct (st (rsubst sargs (f_ty f)) v) as [j|] eqn:Hj; [|discriminate]. cbn [option_map] in He.
       destruct (opt_map2 _ fs vs) as [rest|] eqn:Hrest; [|discriminate]. cbn in He. inversion He; subst; clear He.
-      cbn [omap_list] in Hp. unfold value_ty at 1 in Hp. rewrite Hty, (rsubst_nil _ Hsrc) in Hp.
-      change (if f_inline f then inl (f_ty f) else name_of R (f_ty f)) with (fty f) in Hp.
+      cbn [omap_list] in Hp. unfold value_ty at 1 in Hp. rewrite Hty in Hp.
+      change (if f_inline f then inl (rsubst gargs (f_ty f)) else name_of R (rsubst gargs (f_ty f))) with (fty f) in Hp.
       destruct (fty f) as [a|?|?] eqn:Ha; cbn [bind] in Hp; try discriminate.
-      destruct (omap_list (value_ty R inl []) (filter (fun fl => negb (f_skip fl)) fs)) as [ts|?|?] eqn:Hts; try discriminate.
-      inversion Hp; subst. constructor; [eapply Hfld; [exact Hmono | eassumption | exact Ha]|].
+      destruct (omap_list (value_ty R inl gargs) (filter (fun fl => negb (f_skip fl)) fs)) as [ts|?|?] eqn:Hts; try discriminate.
+      inversion Hp; subst. constructor; [eapply Hfld; [exact Hf0 | eassumption | exact Ha]|].
       eapply IH; [exact Hfs| |reflexivity]. rewrite Hrest. reflexivity.
 Qed.
 
@@ -155,11 +221,11 @@ Lemma live_plain fs : Forall plain_field fs -> Forall plain_field (live fs).
 Proof. intros H. unfold live. rewrite Forall_forall in *. intros x Hx. apply H. eapply filter_incl_in; exact Hx. Qed.
 
 Lemma ev_neverarr : ev TNeverArr (JArr []).
-Proof. exists 1. intros [|f] Hf; [lia | reflexivity]. Qed.
+Proof. exists 1%nat. intros [|f] Hf; [lia | reflexivity]. Qed.
 Lemma ev_recnever : ev TRecordNever (JObj []).
-Proof. exists 1. intros [|f] Hf; [lia | reflexivity]. Qed.
+Proof. exists 1%nat. intros [|f] Hf; [lia | reflexivity]. Qed.
 Lemma ev_null : ev (TPrim (lit "null")) JNull.
-Proof. apply ev_prim. reflexivity. Qed.
+Proof. apply evs_prim. reflexivity. Qed.
 
 Definition plain_shape (s : shape) : Prop :=
   match s with
@@ -178,14 +244,14 @@ Definition keys_distinct (ra : option rule) (extra : list str) (s : shape) : Pro
 (* the named fields as an object, possibly with leading extra properties (a tag) *)
 Lemma named_object ra fs vs entries props (xprops : list (phead * tsty)) (xentries : list (str * json)) :
   Forall plain_field fs ->
-  named_entries st [] ra fs vs = Some entries ->
-  omap_list (prop_of is_alnum is_numeric R inl [] ra NotOptional) (live fs) = Ok props ->
+  named_entries st sargs ra fs vs = Some entries ->
+  omap_list (prop_of is_alnum is_numeric R inl gargs ra NotOptional) (live fs) = Ok props ->
   NoDup (map (fun p => p_key (fst p)) xprops ++ map (Gen.field_key ra) (live fs)) ->
   Forall2 (fun p e => p_key (fst p) = fst e /\ p_optional (fst p) = false /\ ev (snd p) (snd e)) xprops xentries ->
   ev (TObj OStruct (xprops ++ props)) (JObj (xentries ++ entries)).
 Proof.
   intros Hpl He Hp Hnd Hx. destruct (named_fields_rel ra fs vs entries props Hpl He Hp) as (A & B & C).
-  apply ev_obj.
+  apply evs_obj.
   - rewrite map_app, C. exact Hnd.
   - intros k j Hin. apply in_app_or in Hin as [Hin|Hin].
     + clear -Hx Hin. induction Hx as [|p e xp xe (Hk & Ho & Hm) _ IH]; [destruct Hin|].
@@ -201,8 +267,8 @@ Qed.
 
 Lemma shape_member ra s vs j r :
   plain_shape s -> keys_distinct ra [] s ->
-  shape_ser st [] ra s vs = Some j ->
-  shape_gen is_alnum is_numeric R inl flt [] ra NotOptional None s = Ok r ->
+  shape_ser st sargs ra s vs = Some j ->
+  shape_gen is_alnum is_numeric R inl flt gargs ra NotOptional None s = Ok r ->
   ev (fst r) j.
 Proof.
   intros Hpl Hkd Hs Hg. destruct s as [|fs|fs].
@@ -210,16 +276,16 @@ Proof.
   - destruct fs as [|f [|f2 fs]].
     + cbn in Hs, Hg. unfold tuple_items in Hs. destruct vs; [|discriminate]. cbn in Hs. inversion Hs; inversion Hg; subst. apply ev_neverarr.
     + destruct Hpl as [Hf Hsk]. cbn [shape_ser shape_gen] in Hs, Hg. rewrite Hsk in Hg.
-      destruct vs as [|v [|? ?]]; try discriminate. destruct Hf as (Hfl & Hopt & Hty & Hsn & Hsty & Hmono). pose proof (mono_src _ Hmono) as Hsrc.
-      rewrite Hsty, (rsubst_nil _ Hsrc) in Hs. unfold value_ty in Hg. rewrite Hty, (rsubst_nil _ Hsrc) in Hg.
-      change (if f_inline f then inl (f_ty f) else name_of R (f_ty f)) with (fty f) in Hg.
-      destruct (fty f) as [a|?|?] eqn:Ha; try discriminate. inversion Hg; subst. cbn [fst]. eapply Hfld; [exact Hmono | eassumption | exact Ha].
+      destruct vs as [|v [|? ?]]; try discriminate. pose proof Hf as Hf0. destruct Hf as (Hfl & Hopt & Hty & Hsn & Hsty & Hmono & Hinl0).
+      rewrite Hsty in Hs. unfold value_ty in Hg. rewrite Hty in Hg.
+      change (if f_inline f then inl (rsubst gargs (f_ty f)) else name_of R (rsubst gargs (f_ty f))) with (fty f) in Hg.
+      destruct (fty f) as [a|?|?] eqn:Ha; try discriminate. inversion Hg; subst. cbn [fst]. eapply Hfld; [exact Hf0 | eassumption | exact Ha].
     + cbn [plain_shape] in Hpl. cbn [shape_ser shape_gen] in Hs, Hg.
-      destruct (tuple_items st [] (f :: f2 :: fs) vs) as [items|] eqn:Hi; [|discriminate]. inversion Hs; subst.
+      destruct (tuple_items st sargs (f :: f2 :: fs) vs) as [items|] eqn:Hi; [|discriminate]. inversion Hs; subst.
       apply bind_ok in Hg as (tys & Htys & Hg). inversion Hg; subst. cbn [fst].
-      apply ev_tuple. eapply tuple_items_rel; eassumption.
+      apply evs_tuple. eapply tuple_items_rel; eassumption.
   - cbn [plain_shape keys_distinct app] in Hpl, Hkd. cbn [shape_ser] in Hs.
-    destruct (named_entries st [] ra fs vs) as [entries|] eqn:He; [|discriminate]. inversion Hs; subst.
+    destruct (named_entries st sargs ra fs vs) as [entries|] eqn:He; [|discriminate]. inversion Hs; subst.
     destruct fs as [|f fs'].
     + cbn in Hg. inversion Hg; subst. destruct vs; [|discriminate]. cbn in He. inversion He; subst. apply ev_recnever.
     + cbn [shape_gen] in Hg.
@@ -229,19 +295,19 @@ Proof.
         by (intros x Hx; apply is_flat_plain; pose proof (live_plain _ Hpl) as Hl; rewrite Forall_forall in Hl; auto).
       apply bind_ok in Hg as (props & Hp & Hg). cbn [omap_list bind] in Hg.
       assert (Hr : r = (TMerged (TObj OStruct props), Some (TMerged (TObj OStruct props)))) by (destruct props; inversion Hg; reflexivity).
-      subst r. cbn [fst]. apply ev_merged.
+      subst r. cbn [fst]. apply evs_merged.
       apply (named_object ra (f :: fs') vs entries props [] [] Hpl He Hp); [exact Hkd | constructor].
 Qed.
 
 (* a named shape carrying a tag property (struct-level `tag`, struct variant of an internally tagged enum) *)
 Lemma tagged_named_member ra fs vs entries t nm r :
   Forall plain_field fs -> NoDup (t :: map (Gen.field_key ra) (live fs)) ->
-  named_entries st [] ra fs vs = Some entries ->
-  shape_gen is_alnum is_numeric R inl flt [] ra NotOptional (Some (t, nm)) (SNamed fs) = Ok r ->
+  named_entries st sargs ra fs vs = Some entries ->
+  shape_gen is_alnum is_numeric R inl flt gargs ra NotOptional (Some (t, nm)) (SNamed fs) = Ok r ->
   ev (fst r) (JObj ((t, JStr nm) :: entries)) /\ exists x, snd r = Some x.
 Proof.
   intros Hpl Hnd He Hg. cbn [shape_gen] in Hg.
-  assert (Hg' : bind (omap_list (prop_of is_alnum is_numeric R inl [] ra NotOptional) (live fs)) (fun props =>
+  assert (Hg' : bind (omap_list (prop_of is_alnum is_numeric R inl gargs ra NotOptional) (live fs)) (fun props =>
                   Ok (TMerged (TObj OStruct ((quoted_head t, TLit nm) :: props)), Some (TMerged (TObj OStruct ((quoted_head t, TLit nm) :: props))))) = Ok r).
   { destruct fs as [|f fs']; [cbn in Hg |- *; exact Hg|].
     rewrite (filter_all (fun fl => negb (is_flat fl)) (live (f :: fs'))) in Hg
@@ -250,10 +316,10 @@ Proof.
       by (intros x Hx; apply is_flat_plain; pose proof (live_plain _ Hpl) as Hl; rewrite Forall_forall in Hl; auto).
     exact Hg. }
   clear Hg. apply bind_ok in Hg' as (props & Hp & Hg). inversion Hg; subst; clear Hg. cbn [fst snd].
-  split; [|eauto]. apply ev_merged.
+  split; [|eauto]. apply evs_merged.
   apply (named_object ra fs vs entries props [(quoted_head t, TLit nm)] [(t, JStr nm)] Hpl He Hp).
   - cbn [map fst p_key quoted_head app]. exact Hnd.
-  - constructor; [|constructor]. cbn. repeat split. apply ev_lit.
+  - constructor; [|constructor]. cbn. repeat split. apply evs_lit.
 Qed.
 
 Definition plain_variant (tg : tagging) (v : variant) : Prop :=
@@ -272,7 +338,7 @@ Definition variant_keys_distinct (tg : tagging) (ra : option rule) (s : shape) :
 
 Lemma ev_single k a j : ev a j -> ev (TObj OVariant [(quoted_head k, a)]) (JObj [(k, j)]).
 Proof.
-  intros H. apply ev_obj.
+  intros H. apply evs_obj.
   - cbn. constructor; [intros []|constructor].
   - intros k' j' [Heq|[]]. inversion Heq. subst k' j'. exists (quoted_head k), a. repeat split; [left; reflexivity | exact H].
   - intros p t [Heq|[]] _. inversion Heq. subst p t. exists j. left. reflexivity.
@@ -281,7 +347,7 @@ Qed.
 Lemma ev_pair k1 a1 j1 k2 a2 j2 : k1 <> k2 -> ev a1 j1 -> ev a2 j2 ->
   ev (TObj OVariant [(quoted_head k1, a1); (quoted_head k2, a2)]) (JObj [(k1, j1); (k2, j2)]).
 Proof.
-  intros Hne H1 H2. apply ev_obj.
+  intros Hne H1 H2. apply evs_obj.
   - cbn. constructor; [intros [Heq|[]]; apply Hne; symmetry; exact Heq|]. constructor; [intros []|constructor].
   - intros k' j' [Heq|[Heq|[]]]; inversion Heq; subst k' j'.
     + exists (quoted_head k1), a1. repeat split; [left; reflexivity | exact H1].
@@ -292,8 +358,8 @@ Qed.
 Lemma variant_member a tg raf v vs j x :
   plain_variant tg v ->
   variant_keys_distinct tg (variant_rename_all raf v) (v_shape v) ->
-  variant_ser is_upper st [] a tg raf v vs = Some j ->
-  variant_gen is_upper is_alnum is_numeric R inl flt [] a tg raf v = Ok x ->
+  variant_ser is_upper st sargs a tg raf v vs = Some j ->
+  variant_gen is_upper is_alnum is_numeric R inl flt gargs a tg raf v = Ok x ->
   ev x j.
 Proof.
   intros (Hty & Has & Hun & Hsh & Htg) Hkd Hs Hg.
@@ -312,20 +378,20 @@ Proof.
   - (* externally tagged *)
     cbn [andb] in Hvt. replace (match is_named (v_shape v) && negb false with true => None | false => None end) with (@None (str * str)) in Hvt by (destruct (is_named (v_shape v)); reflexivity).
     destruct (v_shape v) as [|fs|fs] eqn:Hshape.
-    + inversion Hs; inversion Hg; subst. apply ev_lit.
-    + destruct (shape_ser st [] ra (STuple fs) vs) as [cj|] eqn:Hc; [|discriminate]. inversion Hs; subst.
+    + inversion Hs; inversion Hg; subst. apply evs_lit.
+    + destruct (shape_ser st sargs ra (STuple fs) vs) as [cj|] eqn:Hc; [|discriminate]. inversion Hs; subst.
       assert (Hx : x = TObj OVariant [(quoted_head name, fst vt)]).
       { destruct (lone_field (STuple fs)) as [fl|] eqn:Hl; [|inversion Hg; reflexivity].
         destruct fs as [|f [|? ?]]; try discriminate. inversion Hl; subst. rewrite Hlone in Hg. inversion Hg; reflexivity. }
       subst x. apply ev_single. eapply shape_member; [exact Hsh | exact Hkd | exact Hc | exact Hvt].
-    + destruct (shape_ser st [] ra (SNamed fs) vs) as [cj|] eqn:Hc; [|discriminate]. inversion Hs; subst.
+    + destruct (shape_ser st sargs ra (SNamed fs) vs) as [cj|] eqn:Hc; [|discriminate]. inversion Hs; subst.
       cbn in Hg. inversion Hg; subst. apply ev_single. eapply shape_member; [exact Hsh | exact Hkd | exact Hc | exact Hvt].
   - (* internally tagged *)
     destruct (v_shape v) as [|fs|fs] eqn:Hshape; [| contradiction |].
     + cbn in Hvt. inversion Hvt; subst. cbn [snd] in Hg. inversion Hs; inversion Hg; subst.
-      apply ev_single. apply ev_lit.
+      apply ev_single. apply evs_lit.
     + cbn [is_named andb negb] in Hvt. cbn [is_named_shape] in Hs.
-      cbn [shape_ser] in Hs. destruct (named_entries st [] ra fs vs) as [entries|] eqn:He; [|discriminate]. cbn [option_map] in Hs.
+      cbn [shape_ser] in Hs. destruct (named_entries st sargs ra fs vs) as [entries|] eqn:He; [|discriminate]. cbn [option_map] in Hs.
       inversion Hs; subst. cbn [variant_keys_distinct keys_distinct app] in Hkd.
       destruct (tagged_named_member ra fs vs entries t name vt Hsh Hkd He Hvt) as [Hm [y Hy]].
       rewrite Hy in Hg. inversion Hg; subst. exact Hm.
@@ -333,14 +399,14 @@ Proof.
     destruct Hkd as [Hne Hkd].
     cbn [andb] in Hvt. replace (match is_named (v_shape v) && negb false with true => None | false => None end) with (@None (str * str)) in Hvt by (destruct (is_named (v_shape v)); reflexivity).
     destruct (v_shape v) as [|fs|fs] eqn:Hshape.
-    + inversion Hs; inversion Hg; subst. apply ev_single. apply ev_lit.
-    + destruct (shape_ser st [] ra (STuple fs) vs) as [cj|] eqn:Hc; [|discriminate]. inversion Hs; subst.
+    + inversion Hs; inversion Hg; subst. apply ev_single. apply evs_lit.
+    + destruct (shape_ser st sargs ra (STuple fs) vs) as [cj|] eqn:Hc; [|discriminate]. inversion Hs; subst.
       assert (Hx : x = TObj OVariant [(quoted_head t, TLit name); (quoted_head c, fst vt)]).
       { destruct (lone_field (STuple fs)) as [fl|] eqn:Hl; [|inversion Hg; reflexivity].
         destruct fs as [|f [|? ?]]; try discriminate. inversion Hl; subst. rewrite Hlone in Hg. inversion Hg; reflexivity. }
-      subst x. apply ev_pair; [exact Hne | apply ev_lit|]. eapply shape_member; [exact Hsh | exact Hkd | exact Hc | exact Hvt].
-    + destruct (shape_ser st [] ra (SNamed fs) vs) as [cj|] eqn:Hc; [|discriminate]. inversion Hs; subst.
-      cbn in Hg. inversion Hg; subst. apply ev_pair; [exact Hne | apply ev_lit|]. eapply shape_member; [exact Hsh | exact Hkd | exact Hc | exact Hvt].
+      subst x. apply ev_pair; [exact Hne | apply evs_lit|]. eapply shape_member; [exact Hsh | exact Hkd | exact Hc | exact Hvt].
+    + destruct (shape_ser st sargs ra (SNamed fs) vs) as [cj|] eqn:Hc; [|discriminate]. inversion Hs; subst.
+      cbn in Hg. inversion Hg; subst. apply ev_pair; [exact Hne | apply evs_lit|]. eapply shape_member; [exact Hsh | exact Hkd | exact Hc | exact Hvt].
   - (* untagged *)
     cbn [andb] in Hvt. replace (match is_named (v_shape v) && negb false with true => None | false => None end) with (@None (str * str)) in Hvt by (destruct (is_named (v_shape v)); reflexivity).
     inversion Hg; subst.
@@ -353,7 +419,7 @@ Qed.
 (* ---- one definition ---------------------------------------------------------------------------- *)
 Definition plain_def (d : typedef) : Prop :=
   let a := attrs_of d in
-  c_type a = None /\ c_as a = None /\ c_params a = [] /\
+  c_type a = None /\ c_as a = None /\ length (c_params a) = n /\
   match d with
   | DStruct a s =>
       c_optional_fields a = NotOptional /\ plain_shape s /\
@@ -374,17 +440,17 @@ Qed.
 
 Lemma def_member d v j r :
   plain_def d ->
-  def_ser is_upper st d [] v = Some j ->
-  def_body is_upper is_alnum is_numeric R inl flt d [] = Ok r ->
+  def_ser is_upper st d sargs v = Some j ->
+  def_body is_upper is_alnum is_numeric R inl flt d gargs = Ok r ->
   ev (fst r) j.
 Proof.
   intros (Hty & Has & Hps & Hd) Hs Hg. unfold def_body in Hg. rewrite Hty, Has in Hg.
   destruct d as [a s|a tg raf vs]; cbn [attrs_of] in *.
   - destruct Hd as (Hopt & Hsh & Htag). destruct v; try discriminate. cbn [def_ser] in Hs. rewrite Hopt in Hg.
     destruct (c_tag a) as [t|] eqn:Ht.
-    + destruct Htag as (fs0 & -> & Hnd). destruct (named_entries st [] (c_rename_all a) fs0 fs) as [entries|] eqn:He; [|discriminate].
+    + destruct Htag as (fs0 & -> & Hnd). destruct (named_entries st sargs (c_rename_all a) fs0 fs) as [entries|] eqn:He; [|discriminate].
       inversion Hs; subst. eapply tagged_named_member; eassumption.
-    + assert (Hs' : shape_ser st [] (c_rename_all a) s fs = Some j) by (destruct s; exact Hs).
+    + assert (Hs' : shape_ser st sargs (c_rename_all a) s fs = Some j) by (destruct s; exact Hs).
       eapply shape_member; eassumption.
   - destruct v; try discriminate. cbn [def_ser] in Hs.
     destruct (nth_error vs idx) as [vr|] eqn:Hn; [|discriminate].
@@ -397,7 +463,7 @@ Proof.
     destruct (Forall2_in_l' _ _ _ vr Hl Hin) as (x & Hx & Hgen).
     assert (Hr : fst r = TUnion l).
     { destruct l; [destruct Hx | inversion Hg; reflexivity]. }
-    rewrite Hr. eapply ev_union; [exact Hx|].
+    rewrite Hr. eapply evs_union; [exact Hx|].
     rewrite Forall_forall in Hd. destruct (Hd vr (nth_error_In _ _ Hn) Hskip) as [Hpv Hkd].
     eapply variant_member; eassumption.
 Qed.
@@ -412,7 +478,10 @@ Variable sd : typedef -> list rty -> value -> option json.
 Notation ev := (ev_mem E).
 
 (* what is known of derived types: a value of a definition inhabits the reference to it *)
-Hypothesis Hsd : forall id d v j, lookup R id = Some d -> sd d [] v = Some j -> ev (TRef (ts_ident d) []) j.
+Notation mono_ty := (mono_ty R).
+Hypothesis Hsd : forall id d args l v j, lookup R id = Some d ->
+  length args = length (c_params (attrs_of d)) -> forallb mono_ty args = true ->
+  sd d args v = Some j -> omap_list (name_of R) args = Ok l -> ev (TRef (ts_ident d) l) j.
 
 Lemma ev_leaf l v j : leaf_ser l v = Some j -> ev (leaf_ts l) j.
 Proof.
@@ -442,7 +511,7 @@ Theorem lib_ev : forall t v j a,
   mono_ty t = true -> ser_ty R sd t v = Some j -> name_of R t = Ok a -> ev a j.
 Proof.
   induction t as [l|t IH|t IH|n t IH|ts IH|k vt IHk IHv|t IH|t e IHt IHe|t IH|id args IH|i|n] using rty_ind';
-    intros v j a Hm Hs Ha; cbn [mono_ty] in Hm; try discriminate; cbn [Gen.name_of] in Ha; cbn [Serde.ser_ty] in Hs.
+    intros v j a Hm Hs Ha; unfold Sem_derive_proofs.mono_ty in Hm; cbn [pmono] in Hm; fold (Sem_derive_proofs.mono_ty R) in *; try discriminate; cbn [Gen.name_of] in Ha; cbn [Serde.ser_ty] in Hs.
   - inversion Ha; subst. eapply ev_leaf; exact Hs.
   - apply bind_ok in Ha as (x & Hx & Ha). inversion Ha; subst. destruct v; try discriminate.
     + inversion Hs; subst. eapply ev_union; [right; left; reflexivity | apply ev_prim; reflexivity].
@@ -502,19 +571,21 @@ Proof.
       * exists (plain_head (lit "start")), x. repeat split; [left; reflexivity | eapply IH; eassumption].
       * exists (plain_head (lit "end")), x. repeat split; [right; left; reflexivity | eapply IH; eassumption].
     + intros p ty [Heq|[Heq|[]]] _; inversion Heq; subst p ty; [exists ja; left; reflexivity | exists jb; right; left; reflexivity].
-  - destruct args as [|? ?]; [|discriminate]. destruct (lookup R id) as [d|] eqn:Hlk; [|discriminate].
-    cbn [omap_list bind] in Ha. inversion Ha; subst. eapply Hsd; eassumption.
+  - destruct (lookup R id) as [d|] eqn:Hlk; [|discriminate]. apply andb_true_iff in Hm as [Hlen Hargs]. apply Nat.eqb_eq in Hlen.
+    apply bind_ok in Ha as (l & Hl & Ha). inversion Ha; subst. eapply Hsd; eassumption.
 Qed.
 
 (* the same for TS::inline(): derived leaves are inlined (their body), tuples and ranges cannot be *)
 Variable g : dgen.
-Hypothesis Hg : forall id d v j r, lookup R id = Some d -> sd d [] v = Some j -> g d [] = Ok r -> ev (fst r) j.
+Hypothesis Hg : forall id d args v j r, lookup R id = Some d ->
+  length args = length (c_params (attrs_of d)) -> forallb mono_ty args = true ->
+  sd d args v = Some j -> g d args = Ok r -> ev (fst r) j.
 
 Theorem lib_inline_ev : forall t v j a,
   mono_ty t = true -> ser_ty R sd t v = Some j -> lib_inline R g t = Ok a -> ev a j.
 Proof.
   induction t as [l|t IH|t IH|n t IH|ts IH|k vt IHk IHv|t IH|t e IHt IHe|t IH|id args IH|i|n] using rty_ind';
-    intros v j a Hm Hs Ha; cbn [mono_ty] in Hm; try discriminate; cbn [Gen.lib_inline] in Ha; cbn [Serde.ser_ty] in Hs; try discriminate.
+    intros v j a Hm Hs Ha; unfold Sem_derive_proofs.mono_ty in Hm; cbn [pmono] in Hm; fold (Sem_derive_proofs.mono_ty R) in *; try discriminate; cbn [Gen.lib_inline] in Ha; cbn [Serde.ser_ty] in Hs; try discriminate.
   - inversion Ha; subst. eapply ev_leaf; exact Hs.
   - apply bind_ok in Ha as (x & Hx & Ha). inversion Ha; subst. destruct v; try discriminate.
     + inversion Hs; subst. eapply ev_union; [right; left; reflexivity | apply ev_prim; reflexivity].
@@ -556,8 +627,8 @@ Proof.
     apply andb_true_iff in Hm as [Ht He]. destruct v; try discriminate. destruct idx as [|[|]]; destruct fs as [|v0 [|]]; try discriminate.
     + destruct (ser_ty R sd t v0) as [z|] eqn:Hz; [|discriminate]. inversion Hs; subst. apply ev_result_ok. eapply IHt; eassumption.
     + destruct (ser_ty R sd e v0) as [z|] eqn:Hz; [|discriminate]. inversion Hs; subst. apply ev_result_err. eapply IHe; eassumption.
-  - destruct args as [|? ?]; [|discriminate]. destruct (lookup R id) as [d|] eqn:Hlk; [|discriminate].
-    destruct (g d []) as [r| |] eqn:Hr; try discriminate. cbn [omap] in Ha. inversion Ha; subst. eapply Hg; eassumption.
+  - destruct (lookup R id) as [d|] eqn:Hlk; [|discriminate]. apply andb_true_iff in Hm as [Hlen Hargs]. apply Nat.eqb_eq in Hlen.
+    destruct (g d args) as [r| |] eqn:Hr; try discriminate. cbn [omap] in Ha. inversion Ha; subst. eapply Hg; eassumption.
 Qed.
 End LibEv.
 
@@ -607,11 +678,15 @@ Definition is_none {A} (o : option A) : bool := match o with None => true | Some
 Lemma is_none_eq {A} (o : option A) : is_none o = true -> o = None.
 Proof. destruct o; [discriminate | reflexivity]. Qed.
 
-Definition plain_fieldb (f : field) : bool :=
-  negb (f_flatten f) && match f_optional f with NotOptional => true | _ => false end &&
-  is_none (f_type f) && negb (f_skip_none f) && rty_eqb (f_serde_ty f) (f_ty f) && mono_ty (f_ty f).
+Section Dec.
+Variable R : env.
 
-Lemma plain_fieldb_ok f : plain_fieldb f = true -> plain_field f.
+Definition plain_fieldb (n : nat) (f : field) : bool :=
+  negb (f_flatten f) && match f_optional f with NotOptional => true | _ => false end &&
+  is_none (f_type f) && negb (f_skip_none f) && rty_eqb (f_serde_ty f) (f_ty f) && pmono R n (f_ty f) &&
+  (negb (f_inline f) || Nat.eqb n 0).
+
+Lemma plain_fieldb_ok n f : plain_fieldb n f = true -> plain_field R n f.
 Proof.
   unfold plain_fieldb, plain_field. intros H.
   repeat match type of H with (_ && _) = true => let H' := fresh "H" in apply andb_true_iff in H as [H H'] end.
@@ -620,20 +695,21 @@ Proof.
   - apply is_none_eq; assumption.
   - apply rty_eqb_eq; assumption.
   - assumption.
+  - intros Hi. match goal with Hx : (negb (f_inline f) || Nat.eqb n 0)%bool = true |- _ => rewrite Hi in Hx; cbn in Hx; apply Nat.eqb_eq in Hx; exact Hx end.
 Qed.
 
-Definition plain_shapeb (s : shape) : bool :=
+Definition plain_shapeb (n : nat) (s : shape) : bool :=
   match s with
   | SUnit => true
-  | STuple [f] => plain_fieldb f && negb (f_skip f)
-  | STuple fs => forallb plain_fieldb fs
-  | SNamed fs => forallb plain_fieldb fs
+  | STuple [f] => plain_fieldb n f && negb (f_skip f)
+  | STuple fs => forallb (plain_fieldb n) fs
+  | SNamed fs => forallb (plain_fieldb n) fs
   end.
 
 Lemma forallb_Forall' {A} (p : A -> bool) (P : A -> Prop) l : (forall x, p x = true -> P x) -> forallb p l = true -> Forall P l.
 Proof. intros Hp H. rewrite forallb_forall in H. apply Forall_forall. auto. Qed.
 
-Lemma plain_shapeb_ok s : plain_shapeb s = true -> plain_shape s.
+Lemma plain_shapeb_ok n s : plain_shapeb n s = true -> plain_shape R n s.
 Proof.
   destruct s as [|fs|fs]; cbn [plain_shapeb plain_shape]; intros H.
   - exact I.
@@ -653,14 +729,14 @@ Definition keys_distinctb (ra : option rule) (extra : list str) (s : shape) : bo
 Lemma keys_distinctb_ok ra extra s : keys_distinctb ra extra s = true -> keys_distinct ra extra s.
 Proof. destruct s; cbn; intros H; try exact I. apply nodupb_NoDup. exact H. Qed.
 
-Definition plain_variantb (tg : tagging) (v : variant) : bool :=
-  is_none (v_type v) && is_none (v_as v) && negb (v_untagged v) && plain_shapeb (v_shape v) &&
+Definition plain_variantb (n : nat) (tg : tagging) (v : variant) : bool :=
+  is_none (v_type v) && is_none (v_as v) && negb (v_untagged v) && plain_shapeb n (v_shape v) &&
   match tg with
   | Internal _ => match v_shape v with STuple _ => false | _ => true end
   | _ => true
   end.
 
-Lemma plain_variantb_ok tg v : plain_variantb tg v = true -> plain_variant tg v.
+Lemma plain_variantb_ok n tg v : plain_variantb n tg v = true -> plain_variant R n tg v.
 Proof.
   unfold plain_variantb, plain_variant. intros H.
   repeat match type of H with (_ && _) = true => let H' := fresh "H" in apply andb_true_iff in H as [H H'] end.
@@ -683,26 +759,30 @@ Proof.
   intros ->. rewrite str_eqb_refl' in Hn. discriminate.
 Qed.
 
+Definition nparams (d : typedef) : nat := length (c_params (attrs_of d)).
+
 Definition plain_defb (d : typedef) : bool :=
   let a := attrs_of d in
-  is_none (c_type a) && is_none (c_as a) && match c_params a with [] => true | _ => false end &&
+  let n := nparams d in
+  is_none (c_type a) && is_none (c_as a) && nodupb (map fst (c_params a)) &&
   match d with
   | DStruct a s =>
-      match c_optional_fields a with NotOptional => true | _ => false end && plain_shapeb s &&
+      match c_optional_fields a with NotOptional => true | _ => false end && plain_shapeb n s &&
       match c_tag a with
       | None => keys_distinctb (c_rename_all a) [] s
       | Some t => match s with SNamed fs => nodupb (t :: map (Gen.field_key (c_rename_all a)) (live fs)) | _ => false end
       end
   | DEnum a tg raf vs =>
-      forallb (fun v => v_skip v || (plain_variantb tg v && variant_keys_distinctb tg (variant_rename_all raf v) (v_shape v))) vs
+      forallb (fun v => v_skip v || (plain_variantb n tg v && variant_keys_distinctb tg (variant_rename_all raf v) (v_shape v))) vs
   end.
 
-Lemma plain_defb_ok d : plain_defb d = true -> plain_def d.
+Lemma plain_defb_ok d : plain_defb d = true -> plain_def R (nparams d) d /\ NoDup (map fst (c_params (attrs_of d))).
 Proof.
   unfold plain_defb, plain_def. intros H.
   apply andb_true_iff in H as [H Hd]. apply andb_true_iff in H as [H Hps]. apply andb_true_iff in H as [Hty Has].
+  split; [|apply nodupb_NoDup; exact Hps].
   split; [apply is_none_eq; exact Hty|]. split; [apply is_none_eq; exact Has|].
-  split; [destruct (c_params (attrs_of d)); [reflexivity | discriminate]|].
+  split; [reflexivity|].
   destruct d as [a s|a tg raf vs].
   - apply andb_true_iff in Hd as [Hd Htag]. apply andb_true_iff in Hd as [Hopt Hsh].
     split; [destruct (c_optional_fields a); try discriminate; reflexivity|].
@@ -712,8 +792,118 @@ Proof.
   - eapply forallb_Forall'; [|exact Hd]. intros v Hv Hskip. cbn beta in Hv. rewrite Hskip in Hv. cbn [orb] in Hv.
     apply andb_true_iff in Hv as [H1 H2]. split; [apply plain_variantb_ok; exact H1 | apply variant_keys_distinctb_ok; exact H2].
 Qed.
+End Dec.
+
+(* ============================ instantiation of names ============================================ *)
+Lemma tsubst_leaf sn sf l : tsubst sn sf (leaf_ts l) = leaf_ts l.
+Proof. destruct l as [[|] ? ?| | | | |]; reflexivity. Qed.
+
+Lemma map_repeat {A B} (f : A -> B) a n : map f (repeat a n) = repeat (f a) n.
+Proof. induction n as [|n IH]; cbn; [reflexivity | rewrite IH; reflexivity]. Qed.
+
+Lemma tsubst_array_ts sn sf n a : tsubst sn sf (array_ts n a) = array_ts n (tsubst sn sf a).
+Proof. unfold array_ts. destruct (Nat.ltb ARRAY_TUPLE_LIMIT n); cbn [tsubst]; [reflexivity | rewrite map_repeat; reflexivity]. Qed.
+
+Lemma bind_params_at : forall (ps : list (str * option tsty)) l i x u,
+  NoDup (map fst ps) -> nth_error (map fst ps) i = Some x -> nth_error l i = Some u -> bind_params ps l x = Some u.
+Proof.
+  induction ps as [|[p d] ps IH]; intros l i x u Hnd Hx Hu; [destruct i; discriminate|].
+  destruct l as [|a l]; [destruct i; discriminate|]. cbn [bind_params]. inversion Hnd as [|? ? Hnin Hnd']; subst.
+  destruct i as [|i]; cbn [map fst nth_error] in Hx, Hu.
+  - inversion Hx; inversion Hu; subst. rewrite str_eqb_refl'. reflexivity.
+  - destruct (str_eqb p x) eqn:E.
+    + apply str_eqb_true in E. subst. exfalso. apply Hnin. eapply nth_error_In. exact Hx.
+    + eapply IH; eassumption.
+Qed.
+
+Lemma omap_list_nth {A B} (f : A -> outcome B) : forall l l' i x, omap_list f l = Ok l' -> nth_error l i = Some x ->
+  exists y, nth_error l' i = Some y /\ f x = Ok y.
+Proof.
+  intros l l' i x H. apply omap_list_ok in H. revert i. induction H as [|a b l l' Hab _ IH]; intros i Hx; [destruct i; discriminate|].
+  destruct i as [|i]; cbn [nth_error] in *; [inversion Hx; subst; eauto | apply IH; exact Hx].
+Qed.
+
+Lemma omap_list_ext {A B} (f g : A -> outcome B) l : (forall x, In x l -> f x = g x) -> omap_list f l = omap_list g l.
+Proof.
+  induction l as [|x l IH]; intros H; cbn [omap_list]; [reflexivity|].
+  rewrite (H x (or_introl eq_refl)). rewrite IH by (intros; apply H; right; assumption). reflexivity.
+Qed.
+
+Lemma omap_list_map_ok {A B C} (f : A -> outcome B) (h : B -> C) (g : A -> outcome C) l l' :
+  omap_list f l = Ok l' -> (forall x y, In x l -> f x = Ok y -> g x = Ok (h y)) -> omap_list g l = Ok (map h l').
+Proof.
+  revert l'. induction l as [|x l IH]; cbn [omap_list]; intros l' H Hg; [inversion H; reflexivity|].
+  destruct (f x) as [y| |] eqn:Hx; try discriminate. cbn [bind] in H.
+  destruct (omap_list f l) as [ys| |] eqn:Hl; try discriminate. inversion H; subst.
+  rewrite (Hg x y (or_introl eq_refl) Hx). cbn [bind]. rewrite (IH ys eq_refl) by (intros; eapply Hg; [right|]; eassumption). reflexivity.
+Qed.
+
+Lemma omap_list_map {A B C} (f : B -> outcome C) (h : A -> B) l : omap_list f (map h l) = omap_list (fun x => f (h x)) l.
+Proof. induction l as [|x l IH]; cbn [map omap_list]; [reflexivity | rewrite IH; reflexivity]. Qed.
+
+Section NameSubst.
+Variable R : env.
+Variable n : nat.
+Variable names : list str.
+Variable args : list rty.
+Variable l : list tsty.
+Variable ps : list (str * option tsty).
+Hypothesis Hnd : NoDup names.
+Hypothesis Hps : map fst ps = names.
+Hypothesis Hlen : length names = n.
+Hypothesis Hargs : omap_list (name_of R) args = Ok l.
+Hypothesis Hlargs : length args = n.
+
+Let ds := map RDummy names.
+Let s := bind_params ps l.
+
+(* the name of a type of the definition at the dummies, instantiated, is its name at the arguments *)
+Lemma name_of_tsubst : forall t a, pmono R n t = true ->
+  name_of R (rsubst ds t) = Ok a -> name_of R (rsubst args t) = Ok (tsubst s s a).
+Proof.
+  induction t as [lf|t IH|t IH|m t IH|ts IH|k v IHk IHv|t IH|t e IHt IHe|t IH|id targs IH|i|m] using rty_ind';
+    intros a Hm Ha; cbn [pmono] in Hm; try discriminate; cbn [rsubst Gen.name_of] in Ha |- *.
+  - inversion Ha; subst. rewrite tsubst_leaf. reflexivity.
+  - apply bind_ok in Ha as (x & Hx & Ha). inversion Ha; subst. rewrite (IH x Hm Hx). reflexivity.
+  - apply bind_ok in Ha as (x & Hx & Ha). inversion Ha; subst. rewrite (IH x Hm Hx). reflexivity.
+  - destruct m as [|m']; [inversion Ha; reflexivity|].
+    apply bind_ok in Ha as (x & Hx & Ha). inversion Ha; subst. rewrite (IH x Hm Hx). cbn [bind]. rewrite tsubst_array_ts. reflexivity.
+  - apply bind_ok in Ha as (xs & Hxs & Ha). inversion Ha; subst. rewrite omap_list_map in Hxs |- *.
+    rewrite (omap_list_map_ok _ (tsubst s s) _ _ _ Hxs). { reflexivity. }
+    intros x y Hin Hy. rewrite Forall_forall in IH. rewrite forallb_forall in Hm. apply IH; [exact Hin | apply Hm; exact Hin | exact Hy].
+  - apply andb_true_iff in Hm as [Hk Hv]. rewrite (key_leaf_subst ds _ Hk) in Ha. rewrite (key_leaf_subst args _ Hk).
+    apply bind_ok in Ha as (x & Hx & Ha). apply bind_ok in Ha as (y & Hy & Ha). inversion Ha; subst. rewrite Hx. cbn [bind].
+    rewrite (IHv y Hv Hy). cbn [bind tsubst].
+    destruct k as [lk| | | | | | | | | | |]; try discriminate. cbn [Gen.name_of] in Hx. inversion Hx; subst. rewrite tsubst_leaf. reflexivity.
+  - apply IH; assumption.
+  - apply andb_true_iff in Hm as [Ht He]. apply bind_ok in Ha as (x & Hx & Ha). apply bind_ok in Ha as (y & Hy & Ha). inversion Ha; subst.
+    rewrite (IHt x Ht Hx), (IHe y He Hy). reflexivity.
+  - apply bind_ok in Ha as (x & Hx & Ha). inversion Ha; subst. rewrite (IH x Hm Hx). reflexivity.
+  - destruct (lookup R id) as [d|]; [|discriminate]. apply andb_true_iff in Hm as [_ Hm].
+    apply bind_ok in Ha as (xs & Hxs & Ha). inversion Ha; subst. rewrite omap_list_map in Hxs |- *.
+    rewrite (omap_list_map_ok _ (tsubst s s) _ _ _ Hxs). { reflexivity. }
+    intros x y Hin Hy. rewrite Forall_forall in IH. rewrite forallb_forall in Hm. apply IH; [exact Hin | apply Hm; exact Hin | exact Hy].
+  - apply Nat.ltb_lt in Hm.
+    destruct (nth_error names i) as [x|] eqn:Hx; [|apply nth_error_None in Hx; lia].
+    destruct (nth_error args i) as [u|] eqn:Hu; [|apply nth_error_None in Hu; lia].
+    assert (Hd : nth i ds (RParam i) = RDummy x).
+    { apply nth_error_nth. unfold ds. rewrite nth_error_map, Hx. reflexivity. }
+    rewrite Hd in Ha. cbn [Gen.name_of] in Ha. injection Ha as <-.
+    rewrite (nth_error_nth _ _ _ Hu).
+    destruct (omap_list_nth _ _ _ _ _ Hargs Hu) as (y & Hy & Hn). rewrite Hn. cbn [tsubst].
+    unfold s. rewrite (bind_params_at ps l i x y); [reflexivity | rewrite Hps; exact Hnd | rewrite Hps; exact Hx | exact Hy].
+Qed.
+End NameSubst.
 
 (* ============================ the knot ========================================================== *)
+Lemma ev_ref_args E name dc l j :
+  dlookup E name = Some dc ->
+  ev_mem E (tsubst (bind_params (d_params dc) l) (bind_params (d_params dc) l) (d_body dc)) j ->
+  ev_mem E (TRef name l) j.
+Proof.
+  intros Hl [f0 H]. exists (S f0). intros [|f] Hf; [lia|]. cbn [memberb]. unfold unfold_ref. rewrite Hl. apply H. lia.
+Qed.
+
 Section Knot.
 Variable is_upper is_alnum is_numeric : char -> bool.
 Variable R : env.
@@ -721,6 +911,7 @@ Variable gf : nat.
 
 Notation decl_of := (Gen.decl_of is_upper is_alnum is_numeric R).
 Notation gen := (Gen.gen is_upper is_alnum is_numeric R).
+Notation mono_ty := (mono_ty R).
 
 (* the declarations ts-rs writes for the environment *)
 Definition env_of : denv :=
@@ -730,7 +921,7 @@ Definition is_ok {A} (o : outcome A) : bool := match o with Ok _ => true | _ => 
 
 (* every definition is plain, gets a declaration, and declaration names are distinct *)
 Definition plain_envb : bool :=
-  forallb (fun p => plain_defb (snd p) && is_ok (decl_of gf (snd p))) R &&
+  forallb (fun p => plain_defb R (snd p) && is_ok (decl_of gf (snd p))) R &&
   nodupb (map (fun p => ts_ident (snd p)) R).
 
 Hypothesis Henv : plain_envb = true.
@@ -741,24 +932,27 @@ Proof.
   destruct (str_eqb k id) eqn:Hk; [apply str_eqb_true in Hk; inversion H; subst; left; reflexivity | right; apply IH; exact H].
 Qed.
 
-Lemma plain_decl d : plain_def d -> forall dc, decl_of gf d = Ok dc ->
-  exists r, gen gf d [] = Ok r /\ d_name dc = ts_ident d /\ d_params dc = [] /\ d_body dc = fst r.
+Lemma plain_decl d dc : decl_of gf d = Ok dc ->
+  exists r, gen gf d (dummies (attrs_of d)) = Ok r /\ d_name dc = ts_ident d /\
+            map fst (d_params dc) = map fst (c_params (attrs_of d)) /\ d_body dc = fst r.
 Proof.
-  intros (_ & _ & Hps & _) dc H. unfold Gen.decl_of, dummies in H. rewrite Hps in H. cbn [map omap_list] in H.
-  apply bind_ok in H as (r & Hr & H). cbn [bind] in H. inversion H; subst. exists r. repeat split. exact Hr.
+  intros H. unfold Gen.decl_of in H. apply bind_ok in H as (r & Hr & H). apply bind_ok in H as (ps & Hps & H). inversion H; subst; clear H.
+  exists r. cbn [d_name d_params d_body]. repeat split; [exact Hr|].
+  apply omap_list_ok in Hps. induction Hps as [|x y xs ys Hxy _ IH]; [reflexivity|]. cbn [map]. f_equal; [|exact IH].
+  destruct (snd x); [apply bind_ok in Hxy as (z & _ & Hy); inversion Hy; reflexivity | inversion Hxy; reflexivity].
 Qed.
 
 Lemma dlookup_env_of : forall (R' : env),
-  (forall p, In p R' -> plain_def (snd p) /\ is_ok (decl_of gf (snd p)) = true) ->
+  (forall p, In p R' -> is_ok (decl_of gf (snd p)) = true) ->
   NoDup (map (fun p => ts_ident (snd p)) R') ->
   forall id d, In (id, d) R' ->
   exists dc, dlookup (flat_map (fun p => match decl_of gf (snd p) with Ok dc => [(d_name dc, dc)] | _ => [] end) R') (ts_ident d) = Some dc
              /\ decl_of gf d = Ok dc.
 Proof.
   induction R' as [|[k x] r IH]; intros Hall Hnd id d Hin; [destruct Hin|].
-  cbn [flat_map snd]. destruct (Hall (k, x) (or_introl eq_refl)) as [Hpx Hokx]. cbn [snd] in *.
+  cbn [flat_map snd]. pose proof (Hall (k, x) (or_introl eq_refl)) as Hokx. cbn [snd] in *.
   destruct (decl_of gf x) as [dcx| |] eqn:Hx; try discriminate.
-  destruct (plain_decl x Hpx dcx Hx) as (rx & _ & Hname & _ & _).
+  destruct (plain_decl x dcx Hx) as (rx & _ & Hname & _ & _).
   cbn [app dlookup]. rewrite Hname. inversion Hnd as [|? ? Hnotin Hnd']; subst.
   destruct Hin as [Heq|Hin].
   - inversion Heq; subst. rewrite str_eqb_refl'. exists dcx. split; [reflexivity | exact Hx].
@@ -770,50 +964,88 @@ Qed.
 
 Notation ev := (ev_mem env_of).
 
-(* every definition, at every generator fuel: serde's output inhabits the generated body *)
-Lemma def_layer : forall n g d id v j r,
-  lookup R id = Some d -> sdef is_upper R n d [] v = Some j -> gen g d [] = Ok r -> ev (fst r) j.
+Lemma env_facts :
+  (forall id d, lookup R id = Some d -> plain_def R (nparams d) d /\ NoDup (map fst (c_params (attrs_of d))) /\
+     exists dc, dlookup env_of (ts_ident d) = Some dc /\ decl_of gf d = Ok dc).
 Proof.
   unfold plain_envb in Henv. apply andb_true_iff in Henv as [Hall Hnd].
   rewrite forallb_forall in Hall. apply nodupb_NoDup in Hnd.
-  assert (Hall' : forall p, In p R -> plain_def (snd p) /\ is_ok (decl_of gf (snd p)) = true).
-  { intros p Hp. specialize (Hall p Hp). apply andb_true_iff in Hall as [H1 H2]. split; [apply plain_defb_ok; exact H1 | exact H2]. }
-  induction n as [|m IHm]; intros g d id v j r Hlk Hs Hr; [cbn in Hs; discriminate|].
-  pose proof (lookup_in _ _ _ Hlk) as Hin. destruct (Hall' _ Hin) as [Hpd _]. cbn [snd] in Hpd.
-  destruct g as [|g']; [cbn in Hr; discriminate|]. cbn [Gen.gen] in Hr. cbn [sdef] in Hs.
-  (* references to definitions: through the declaration of the environment *)
-  assert (Href : forall id2 d2 v2 j2, lookup R id2 = Some d2 -> sdef is_upper R m d2 [] v2 = Some j2 -> ev (TRef (ts_ident d2) []) j2).
-  { intros id2 d2 v2 j2 Hlk2 Hs2. pose proof (lookup_in _ _ _ Hlk2) as Hin2. destruct (Hall' _ Hin2) as [Hpd2 _]. cbn [snd] in Hpd2.
-    destruct (dlookup_env_of R Hall' Hnd id2 d2 Hin2) as (dc & Hdl & Hdc).
-    destruct (plain_decl d2 Hpd2 dc Hdc) as (r2 & Hr2 & _ & Hps & Hbody).
-    eapply ev_ref; [exact Hdl | exact Hps |]. rewrite Hbody. eapply IHm; eassumption. }
-  eapply def_member; [| |exact Hpd | exact Hs | exact Hr].
-  - intros t0 v0 j0 a0 Hm0 Hs0 Ha0. eapply lib_ev; [exact Href | exact Hm0 | exact Hs0 | exact Ha0].
-  - intros t0 v0 j0 a0 Hm0 Hs0 Ha0. eapply lib_inline_ev; [|exact Hm0 | exact Hs0 | exact Ha0].
-    intros id2 d2 v2 j2 r2 Hlk2 Hs2 Hr2. eapply IHm; eassumption.
+  intros id d Hlk. pose proof (lookup_in _ _ _ Hlk) as Hin. specialize (Hall _ Hin) as Hd. cbn [snd] in Hd.
+  apply andb_true_iff in Hd as [Hp _]. destruct (plain_defb_ok R d Hp) as [Hpd Hnp]. split; [exact Hpd|]. split; [exact Hnp|].
+  refine (dlookup_env_of R _ Hnd id d Hin).
+  intros p Hp'. specialize (Hall p Hp'). apply andb_true_iff in Hall as [_ H2]. exact H2.
 Qed.
 
-Theorem derive_layer_member : forall n t v j a,
-  mono_ty t = true -> ser is_upper R n t v = Some j -> name_of R t = Ok a -> ev a j.
+Lemma dummies_eq a : dummies a = map RDummy (map fst (c_params a)).
+Proof. unfold dummies. rewrite map_map. reflexivity. Qed.
+
+(* every definition at every closed instantiation, at every generator fuel: what serde writes inhabits (A) the body
+   of the declaration instantiated at the names of the arguments, (B) the body generated at the arguments (inline()) *)
+Lemma def_layer : forall m,
+  (forall g d id args v j r l ps, lookup R id = Some d -> length args = nparams d -> forallb mono_ty args = true ->
+     sdef is_upper R m d args v = Some j -> gen g d (dummies (attrs_of d)) = Ok r -> omap_list (name_of R) args = Ok l ->
+     map fst ps = map fst (c_params (attrs_of d)) ->
+     ev (tsubst (bind_params ps l) (bind_params ps l) (fst r)) j) /\
+  (forall g d id args v j r, lookup R id = Some d -> length args = nparams d -> forallb mono_ty args = true ->
+     sdef is_upper R m d args v = Some j -> gen g d args = Ok r -> ev (fst r) j).
 Proof.
-  intros n t v j a Hm Hs Ha. unfold ser in Hs.
-  pose proof Henv as Henv'. unfold plain_envb in Henv'. apply andb_true_iff in Henv' as [Hall Hnd].
-  rewrite forallb_forall in Hall. apply nodupb_NoDup in Hnd.
-  assert (Hall' : forall p, In p R -> plain_def (snd p) /\ is_ok (decl_of gf (snd p)) = true).
-  { intros p Hp. specialize (Hall p Hp). apply andb_true_iff in Hall as [H1 H2]. split; [apply plain_defb_ok; exact H1 | exact H2]. }
-  eapply lib_ev; [|exact Hm | exact Hs | exact Ha].
-  intros id d v' j' Hlk H. pose proof (lookup_in _ _ _ Hlk) as Hin. destruct (Hall' _ Hin) as [Hpd _]. cbn [snd] in Hpd.
-  destruct (dlookup_env_of R Hall' Hnd id d Hin) as (dc & Hdl & Hdc).
-  destruct (plain_decl d Hpd dc Hdc) as (r & Hr & _ & Hps & Hbody).
-  eapply ev_ref; [exact Hdl | exact Hps |]. rewrite Hbody. eapply def_layer; eassumption.
+  induction m as [|m [IHA IHB]]; [split; intros; cbn in *; discriminate|].
+  (* references to definitions: through the declaration of the environment *)
+  assert (Href : forall id2 d2 args2 l2 v2 j2, lookup R id2 = Some d2 -> length args2 = length (c_params (attrs_of d2)) ->
+            forallb mono_ty args2 = true -> sdef is_upper R m d2 args2 v2 = Some j2 -> omap_list (name_of R) args2 = Ok l2 ->
+            ev (TRef (ts_ident d2) l2) j2).
+  { intros id2 d2 args2 l2 v2 j2 Hlk2 Hlen2 Hm2 Hs2 Hl2. destruct (env_facts _ _ Hlk2) as (_ & _ & dc & Hdl & Hdc).
+    destruct (plain_decl d2 dc Hdc) as (r2 & Hr2 & _ & Hps & Hbody).
+    eapply ev_ref_args; [exact Hdl|]. rewrite Hbody. eapply IHA; eassumption. }
+  assert (Hinl : forall g' t0 v0 j0 a0, mono_ty t0 = true -> ser_ty R (sdef is_upper R m) t0 v0 = Some j0 ->
+            lib_inline R (gen g') t0 = Ok a0 -> ev a0 j0).
+  { intros g' t0 v0 j0 a0 Hm0 Hs0 Ha0. eapply lib_inline_ev; [|exact Hm0 | exact Hs0 | exact Ha0].
+    intros id2 d2 args2 v2 j2 r2 Hlk2 Hlen2 Hm2 Hs2 Hr2. eapply IHB; eassumption. }
+  split.
+  - intros g d id args v j r l ps Hlk Hlen Hargs Hs Hr Hl Hps.
+    destruct (env_facts _ _ Hlk) as (Hpd & Hnp & _).
+    destruct g as [|g']; [cbn in Hr; discriminate|]. cbn [Gen.gen] in Hr. cbn [sdef] in Hs.
+    eapply (def_member is_upper is_alnum is_numeric R env_of (ser_ty R (sdef is_upper R m)) (lib_inline R (gen g')) (lib_flat R (gen g'))
+              (nparams d) args (dummies (attrs_of d)) (bind_params ps l) (bind_params ps l)); [|exact Hpd | exact Hs | exact Hr].
+    intros f v0 j0 a0 Hf Hs0 Ha0. unfold evs. destruct Hf as (_ & _ & _ & _ & _ & Hpm & Hin0). unfold fty in Ha0.
+    assert (Hmono : mono_ty (rsubst args (f_ty f)) = true).
+    { apply (pmono_subst R (nparams d) args); [apply Forall_forall; rewrite forallb_forall in Hargs; exact Hargs | exact Hlen | exact Hpm]. }
+    destruct (f_inline f) eqn:Hi.
+    + (* inline: only in definitions without parameters *)
+      specialize (Hin0 eq_refl). unfold nparams in Hin0, Hlen. rewrite Hin0 in Hlen.
+      destruct args; [|discriminate]. assert (Hc : c_params (attrs_of d) = []) by (destruct (c_params (attrs_of d)); [reflexivity | discriminate]).
+      unfold dummies in Ha0. rewrite Hc in Ha0, Hps. cbn [map] in Ha0, Hps. destruct ps; [|discriminate]. cbn in Hl. inversion Hl; subst l.
+      cbn [bind_params]. rewrite tsubst_none. eapply Hinl; [exact Hmono | exact Hs0 | exact Ha0].
+    + rewrite dummies_eq in Ha0.
+      eapply lib_ev; [exact Href | exact Hmono | exact Hs0|].
+      exact (name_of_tsubst R (nparams d) (map fst (c_params (attrs_of d))) args l ps Hnp Hps (map_length _ _) Hl Hlen (f_ty f) a0 Hpm Ha0).
+  - intros g d id args v j r Hlk Hlen Hargs Hs Hr.
+    destruct (env_facts _ _ Hlk) as (Hpd & Hnp & _).
+    destruct g as [|g']; [cbn in Hr; discriminate|]. cbn [Gen.gen] in Hr. cbn [sdef] in Hs.
+    rewrite <- (tsubst_none (fst r)).
+    eapply (def_member is_upper is_alnum is_numeric R env_of (ser_ty R (sdef is_upper R m)) (lib_inline R (gen g')) (lib_flat R (gen g'))
+              (nparams d) args args (fun _ => None) (fun _ => None)); [|exact Hpd | exact Hs | exact Hr].
+    intros f v0 j0 a0 Hf Hs0 Ha0. unfold evs. rewrite tsubst_none. destruct Hf as (_ & _ & _ & _ & _ & Hpm & Hin0). unfold fty in Ha0.
+    assert (Hmono : mono_ty (rsubst args (f_ty f)) = true).
+    { apply (pmono_subst R (nparams d) args); [apply Forall_forall; rewrite forallb_forall in Hargs; exact Hargs | exact Hlen | exact Hpm]. }
+    destruct (f_inline f); [eapply Hinl | eapply lib_ev; [exact Href|..]]; eassumption.
+Qed.
+
+Theorem derive_layer_member : forall m t v j a,
+  mono_ty t = true -> ser is_upper R m t v = Some j -> name_of R t = Ok a -> ev a j.
+Proof.
+  intros m t v j a Hm Hs Ha. unfold ser in Hs. eapply lib_ev; [|exact Hm | exact Hs | exact Ha].
+  intros id d args l v' j' Hlk Hlen Hargs Hs' Hl. destruct (env_facts _ _ Hlk) as (_ & _ & dc & Hdl & Hdc).
+  destruct (plain_decl d dc Hdc) as (r & Hr & _ & Hps & Hbody).
+  eapply ev_ref_args; [exact Hdl|]. rewrite Hbody. eapply (proj1 (def_layer m)); eassumption.
 Qed.
 
 (* the same for the inline form of the type *)
-Theorem derive_layer_member_inline : forall n g t v j a,
-  mono_ty t = true -> ser is_upper R n t v = Some j -> lib_inline R (gen g) t = Ok a -> ev a j.
+Theorem derive_layer_member_inline : forall m g t v j a,
+  mono_ty t = true -> ser is_upper R m t v = Some j -> lib_inline R (gen g) t = Ok a -> ev a j.
 Proof.
-  intros n g t v j a Hm Hs Ha. unfold ser in Hs.
+  intros m g t v j a Hm Hs Ha. unfold ser in Hs.
   eapply lib_inline_ev; [|exact Hm | exact Hs | exact Ha].
-  intros id d v' j' r Hlk H Hr. eapply def_layer; eassumption.
+  intros id d args v' j' r Hlk Hlen Hargs Hs' Hr. eapply (proj2 (def_layer m)); eassumption.
 Qed.
 End Knot.
